@@ -987,7 +987,7 @@ class CircuitSerializer(serializer.Serializer):
                 p = arg_func_langs.float_arg_from_proto(
                     operation_proto.noisechannel.depolarizingchannel.probability
                 )
-                if not isinstance(p, float):
+                if not isinstance(p, (int, float)):
                     raise ValueError(
                         f"Depolarizing noise probability {p} cannot be symbol or None"
                     )  # pragma: nocover
